@@ -214,7 +214,9 @@ def gen_scn(rng, idx, params):
     (init, chunks), shape = gen.gen_schedule(rng, len(stream))
     scn = {"prop": "C10", "kind": kind, "kwargs": kw, "tf": tf, "fill": fill, "ha": ha, "family": family, "stream": stream, "init": init, "chunks": chunks,
            "bare_single": rng.random() < 0.5}
-    meta.update(kind=kind, tf_unit=tf[0] if tf else "-", fill=bool(fill), ha=ha, schedule=shape, rv=kw.get("round_value", 4))
+    if rng.random() < 0.1 and cm.have_numpy():
+        scn["numpy"] = rng.choice([True, "mixed", "mixed"])   # numpy.float64 prices and volumes: on all candles, or on every other one
+    meta.update(kind=kind, tf_unit=tf[0] if tf else "-", fill=bool(fill), ha=ha, schedule=shape, rv=kw.get("round_value", 4), numpy=bool(scn.get("numpy")))
     return scn, meta
 
 
@@ -225,7 +227,7 @@ def check(scn):
     if exc is not None:  # totality is C09's property
         return None, info
     stream = [cm.candle_tuple(c) for c in ind.candles]
-    out = ind.as_list()
+    out = [cm.pyval(r) for r in ind.as_list()]
     info["evaluated"] = sum(1 for r in out if r is not None and (not isinstance(r, dict) or any(v is not None for v in r.values())))
     kind = scn["kind"]
     for clause, t, obs, exp in invariants(kind, scn["kwargs"], stream, out):
